@@ -124,6 +124,7 @@ func flight4bGenerate(
 	); err != nil {
 		return nil, nil, err
 	}
+	state.NegotiatedProtocol = finalServerALPN(serverHelloMessage.Extensions)
 	decision := negotiation.DecideConnectionID(offer, serverHelloMessage.Extensions)
 	serverHello := handshake.Handshake{Message: serverHelloMessage}
 
